@@ -37,6 +37,8 @@ def gen_losses(rng: np.random.Generator, n, mode):
         return base
     if mode == "negpos":
         return base - 2.5
+    if mode == "const":                              # a flat history: every loss exactly equal (zero variance)
+        return np.full(n, base[0])
     if mode == "huge":
         x = base.copy()
         k = rng.integers(0, n, size=max(1, n // 4))
